@@ -446,9 +446,12 @@ class SpawnProcessRunner(ProcessRunner):
             # task (and not just load its result from cache) and allow
             # the task to filter the context to only what it needs.
             filtered_context = task.filter_context(self.context)
+            # A failed dependency has no result to transfer; accessing its
+            # result inside the subprocess will raise a TaskError.
             results_map = {
                 dependency_task: self.results_map[dependency_task]
                 for dependency_task in get_direct_dependencies(task)
+                if dependency_task in self.results_map
             }
         return executor.submit(
             self._subprocess_func,
